@@ -318,7 +318,7 @@ theorem region_key_roundtrip (ks : Keyspace) (hv : ks.valid = true) (k s e : Byt
     decodeRegionKey ks (encodeRegionKey ks k) = .ok k ∧
     decodeRegionRange ks (encodeRegionRange ks s e).1 (encodeRegionRange ks s e).2 = .ok (s, e) := by
   constructor
-  · simp [decodeRegionKey, encodeRegionKey, memDecode, decode_encode_bytes, decode_encode_key]
+  · simp [decodeRegionKey, encodeRegionKey, memDecode, decode_encode_bytes_nil, decode_encode_key]
   · have hne1 : (encodeBytes (encodeKey ks s)).isEmpty = false := by
       cases h : encodeBytes (encodeKey ks s) with
       | nil => exact absurd h (encodeBytes_ne_nil _)
@@ -329,7 +329,7 @@ theorem region_key_roundtrip (ks : Keyspace) (hv : ks.valid = true) (k s e : Byt
       | nil => exact absurd h (encodeBytes_ne_nil _)
       | cons c cs => rfl
     simp only [encodeRegionRange, encodeRangeFwd, decodeRegionRange, hne2, Bool.false_eq_true, if_false, memDecode,
-      decode_encode_bytes]
+      decode_encode_bytes_nil]
     have hpre : Bytes.isPrefix ks.pfx (encodeKey ks s) = true := isPrefix_append _ _
     have hdrop : ∀ x, (encodeKey ks x).drop ks.pfx.length = x := by intro x; simp [encodeKey]
     cases he : e.isEmpty with
